@@ -190,11 +190,38 @@ prop('C15',
 import struct
 
 
-def _f32(x):
+def _f32(x, spelling=None):
+    """the float32 nearest a decimal spelling (ties to even, overflow to an infinity), computed from the exact rational
+    - not by rounding the nearest float64 again"""
+    from fractions import Fraction
+    import math
+    if spelling is None:
+        spelling = repr(x)
     try:
-        return struct.unpack('f', struct.pack('f', x))[0]
-    except OverflowError:
-        return float('inf') if x > 0 else float('-inf')
+        v = Fraction(spelling)
+    except (ValueError, ZeroDivisionError):
+        return x   # inf, nan
+    if v == 0:
+        return x
+    neg, a = v < 0, abs(v)
+    e = a.numerator.bit_length() - a.denominator.bit_length() - 24
+    while a / Fraction(2) ** e >= 2 ** 24:
+        e += 1
+    while a / Fraction(2) ** e < 2 ** 23:
+        e -= 1
+    e = max(e, -149)
+    scaled = a / Fraction(2) ** e
+    q = scaled.numerator // scaled.denominator
+    rem = scaled - q
+    if rem > Fraction(1, 2) or (rem == Fraction(1, 2) and q % 2 == 1):
+        q += 1
+    if q == 2 ** 24:
+        q, e = 2 ** 23, e + 1
+    if e + 23 > 127:
+        r = math.inf
+    else:
+        r = math.ldexp(q, e)
+    return -r if neg else r
 
 
 def _norm_floats(text, f32_positions=None):
@@ -203,9 +230,10 @@ def _norm_floats(text, f32_positions=None):
     for i, tok in enumerate(text.split(' ')):
         if tok.startswith('G') and len(tok) > 1:
             try:
-                v = float(bytes.fromhex(tok[1:]).decode())
+                sp = bytes.fromhex(tok[1:]).decode()
+                v = float(sp)
                 if f32_positions is not None and i in f32_positions:
-                    v = _f32(v)
+                    v = _f32(v, sp)
                 tok = 'G' + repr(v)
             except Exception:
                 pass
